@@ -373,6 +373,28 @@ def direct_calls(draw, version):
         ['filter', S, ['or', ['vcmp', 'eq', c('count', inner), ['pos']], ['vcmp', 'eq', ['pos'], ['last']]]],
         ['filter', S, ['seq', ['filter', c('count', inner), ['bool', False]], ['pos']]],
     ]
+    # the outer focus must be back after an inner focus was abandoned early or while later arguments are evaluated
+    out += [
+        ['filter', S, ['and', ['or', c('exists', inner), c('empty', inner)], ['vcmp', _sf(draw, _CMP), ['pos'], ia]]],
+        ['filter', S, ['seq', ['filter', c('zero-or-one', ['filter', inner, ['int', 1]]), ['bool', False]], ['pos']]],
+        ['for', [['x', S]], c('count', c('insert-before', inner, ['int', draw(_upto(3))], ['seq', ['var', 'x'], ['var', 'x']]))],
+    ]
+    if version != '20':
+        k_ = draw(_upto(3))
+        out += [
+            ['map', S, ['seq', c('head', inner), ['ctx'], ['pos'], ['last']]],
+            ['map', S, ['seq', c(_sf(draw, ['exists', 'empty']), inner), ['pos'], ['ctx']]],
+            ['map', S, ['seq', ['filter', inner, ['int', 1]], ['ctx'], ['pos']]],
+            ['map', S, c('insert-before', inner, ['int', k_], ['seq', ['ctx'], ['pos']])],
+            ['map', S, c('insert-before', inner, ['pos'], ['ctx'])],
+            ['map', S, c('subsequence', inner, ['pos'])],
+            ['map', S, c('remove', inner, ['pos'])],
+            ['map', S, c('index-of', inner, ['ctx'])],
+            ['map', S, c('count', ['seq', c('subsequence', inner, ['int', 1], ['int', 1]), ['ctx'], ['last']])],
+            ['map', S, ['seq', c('sum', c('index-of', inner, ['ctx'])), ['pos']]],
+            ['map', S, ['if', c('exists', inner), ['seq', ['ctx'], ['pos']], ['seq', ['pos'], ['ctx']]]],
+            ['map', S, ['seq', ['some', [['v', inner]], ['bool', True]], ['ctx'], ['every', [['v', inner]], ['bool', False]], ['pos']]],
+        ]
     if version != '20':
         out += [c('head', S), c('tail', S), c('string-join', S), ['map', S, ['seq', ['pos'], ['last']]],
                 ['map', S, ['ctx']],
